@@ -155,7 +155,7 @@ def gen_wing(rng, hist, ID, afnames, controls, side="both", is_main=False, conne
 
 def gen_aircraft(rng, hist=None, max_wings=3, reid=None, sides=("both",), N=None, qc_points_p=0.0,
                  controls=("aileron", "elevator", "rudder"), allow_chain=True, planar=False, allow_explicit=True,
-                 explicit_refs=None):
+                 explicit_refs=None, allow_fin=True):
     """Returns an aircraft dictionary (airfoils inlined)."""
     nf = rng.randint(1, 3)
     afs = gen_airfoils(rng, nf, hist)
@@ -177,6 +177,10 @@ def gen_aircraft(rng, hist=None, max_wings=3, reid=None, sides=("both",), N=None
         layout.append(rng.choice(["tail", "tail", "chain" if allow_chain else "tail", "fin"]))
     if nw >= 3:
         layout.append(rng.choice(["fin", "winglet" if allow_chain else "fin", "tail2"]))
+    if not allow_fin:
+        layout = ["tail" if k in ("fin", "winglet") else k for k in layout]
+        if layout.count("tail") > 1:
+            layout = ["tail", "tail2"]
     ID = 2
     for kind in layout:
         _tally(hist, "extra", kind)
